@@ -51,4 +51,62 @@ contract(
         1: loop(counter="t", invariants=[_inv("face_idx", "t")]),
     },
     raises=[("Exception", "False", "only_if")],
+    finite_sizes=[{"n_face": 1, "W": 1, "n_edge": 1}, {"n_face": 2, "W": 2, "n_edge": 3}],
+)
+
+# ---------------------------------------------------------------------------------------------
+# standard form of a face-node table, with the ghost array npf (number of real corners per face)
+# ---------------------------------------------------------------------------------------------
+_STD = [
+    "forall(0, n_face, lambda f: 1 <= npf[f] and npf[f] <= n_max_face_nodes)",
+    "forall(0, n_face, 0, n_max_face_nodes, lambda f, j: iff(j < npf[f], {F}[f, j] != FILL))",
+]
+
+
+def _std(F):
+    return [c.replace("{F}", F) for c in _STD]
+
+
+# close_face_nodes: row f = its corners, then the first corner again, then padding (docstring example; C02 "closing pair")
+contract(
+    "uxarray.grid.connectivity.close_face_nodes", props=["C02"],
+    sizes=["n_face", "n_max_face_nodes"],
+    params={"face_node_connectivity": "arr(int, n_face, n_max_face_nodes, space='face', vspace='node')",
+            "n_face": "n_face", "n_max_face_nodes": "n_max_face_nodes"},
+    ghost_params={"npf": "arr(int, n_face)"},
+    size_constraints=["n_max_face_nodes >= 1"],   # column 0 is read unconditionally (a table without columns raises IndexError)
+    requires=_std("face_node_connectivity"),
+    returns="arr(int, n_face, n_max_face_nodes + 1)",
+    ensures=[
+        "shape(result) == (n_face, n_max_face_nodes + 1)",
+        "forall(0, n_face, 0, n_max_face_nodes + 1, lambda f, j: result[f, j] == "
+        "ite(j < npf[f], face_node_connectivity[f, j], ite(j == npf[f], face_node_connectivity[f, 0], FILL)))",
+        "owner_is(result, 'fresh')",
+    ],
+    raises=[("Exception", "False", "only_if")],
+    replay={"gen": "std_table"},
+)
+
+# _build_n_nodes_per_face: number of real corners of each face
+contract(
+    "uxarray.grid.connectivity._build_n_nodes_per_face", props=["C02"],
+    sizes=["n_face", "n_max_face_nodes"],
+    params={"face_nodes": "arr(int, n_face, n_max_face_nodes, space='face', vspace='node')",
+            "n_face": "n_face", "n_max_face_nodes": "n_max_face_nodes"},
+    ghost_params={"npf": "arr(int, n_face)"},
+    requires=_std("face_nodes"),
+    returns="arr(int, n_face)",
+    ensures=["shape(result) == (n_face,)", "forall(0, n_face, lambda f: result[f] == npf[f])"],
+    raises=[("Exception", "False", "only_if")],
+)
+
+# _build_face_edge_connectivity: row-major reshape of the per-(face, corner) edge index
+contract(
+    "uxarray.grid.connectivity._build_face_edge_connectivity", props=["C02"],
+    sizes=["n_face", "n_max_face_nodes"],
+    params={"inverse_indices": "arr(int, n_face * n_max_face_nodes)", "n_face": "n_face", "n_max_face_nodes": "n_max_face_nodes"},
+    returns="arr(int, n_face, n_max_face_nodes)",
+    ensures=["shape(result) == (n_face, n_max_face_nodes)",
+             "forall(0, n_face, 0, n_max_face_nodes, lambda f, j: result[f, j] == inverse_indices[n_max_face_nodes * f + j])"],
+    raises=[("Exception", "False", "only_if")],
 )
